@@ -1,29 +1,44 @@
 (* C19: CNF export (Tseitin transformation, ddnnife/src/cnf/into.rs + ddnnife_cnf).
    Property theorems only.  Model: Model/ToCnf.v (to_cnf, cnf_sat, cnf_models, header_of).
 
-   Common hypotheses:  WF C n  (the C01 bundle: non-empty, children before parents, decomposable,
-   smooth, complete over 1..n, deterministic),  all_reachable C = true  (every non-root node has
-   a parent: the vector is what `rebuild` flattens from the root; part of check_wf, and NECESSARY,
-   see C19_reachability_needed),  2 <= n,  to_cnf C n = Ok F  (the walk did not panic; this
-   implies no_true_false C = true, C19_ok_excludes_true_false, and excludes childless and/or
-   nodes). *)
+   `to_cnf` is the code after the repair F20 (repo_patches/F20-to-cnf-constants.patch): a true
+   node is the empty conjunction, a false node the empty disjunction, and an operation without
+   operands gets a Tseitin variable like every operation with <> 1 operands (its biconditional is
+   the unit clause (x) resp. (-x)).  `to_cnf_v0` is the code before the repair (findings K5, K10).
+
+   The theorems do NOT exclude true / false nodes or childless and / or nodes.  Hypotheses:
+     C <> [], idx_ok C (children before parents), complete C n (the variables below the root are
+     exactly 1..n)  - three of the six fields of the C01 bundle WF C n; decomposability,
+     smoothness and determinism are needed only by C19_equicount (root_count = number of models);
+     all_reachable C (every non-root node has a parent: the vector is what `rebuild` flattens
+     from the root; part of check_wf, and NECESSARY, see C19_reachability_needed);
+     2 <= n (NECESSARY, see C19_two_features_needed);
+     to_cnf C n = Ok F (always the case for idx_ok C: C19_total).
+   check_wf C n = true (what the correspondence discharges per loaded vector) implies all of them
+   (DetCert.check_wf_sound); none of them mentions no_true_false or forbids And [] / Or []. *)
 From Coq Require Import List ZArith Bool Permutation.
 From DD Require Import Model.Circuit Model.ToCnf Proofs.Semantics Proofs.DetCert Proofs.ToCnfTheorems.
 Import ListNotations.
 Open Scope Z_scope.
 
+(* FULL.  The repaired Cnf::from returns a CNF for every well-indexed vector (no panic site is
+   left but the index check of nodes_to_literals, which idx_ok rules out). *)
+Theorem C19_total : forall C n, idx_ok C = true -> exists F, to_cnf C n = Ok F.
+Proof. exact to_cnf_total. Qed.
+Print Assumptions C19_total.
+
 (* (a) FULL.  Every satisfying assignment of the produced CNF, read on the features 1..n, is a
    model of the d-DNNF. *)
-Theorem C19_sound : forall C n F, WF C n -> all_reachable C = true -> (2 <= n)%nat ->
-  to_cnf C n = Ok F ->
+Theorem C19_sound : forall C n F, C <> [] -> idx_ok C = true -> complete C n = true ->
+  all_reachable C = true -> (2 <= n)%nat -> to_cnf C n = Ok F ->
   forall b, cnf_sat b F = true -> eval_root b C = true /\ In (canon n b) (Models C n).
 Proof. exact tseitin_sound. Qed.
 Print Assumptions C19_sound.
 
 (* (b) FULL.  Every model of the d-DNNF extends to a satisfying assignment of the CNF, and the
    extension is unique on all declared variables 1..num_variables. *)
-Theorem C19_extension_exists_unique : forall C n F, WF C n -> all_reachable C = true -> (2 <= n)%nat ->
-  to_cnf C n = Ok F ->
+Theorem C19_extension_exists_unique : forall C n F, C <> [] -> idx_ok C = true -> complete C n = true ->
+  all_reachable C = true -> (2 <= n)%nat -> to_cnf C n = Ok F ->
   forall s, eval_root s C = true ->
   exists b, cnf_sat b F = true /\ (forall v, 1 <= v <= Z.of_nat n -> b v = s v) /\
     forall b', cnf_sat b' F = true -> (forall v, 1 <= v <= Z.of_nat n -> b' v = s v) ->
@@ -35,8 +50,8 @@ Print Assumptions C19_extension_exists_unique.
    distinct variables and the number of clauses of the clause list; moreover the variables that
    occur are exactly 1..num_variables (so declared = distinct = largest), and Tseitin variables
    were added. *)
-Theorem C19_header : forall C n F, WF C n -> all_reachable C = true -> (2 <= n)%nat ->
-  to_cnf C n = Ok F ->
+Theorem C19_header : forall C n F, C <> [] -> idx_ok C = true -> complete C n = true ->
+  all_reachable C = true -> (2 <= n)%nat -> to_cnf C n = Ok F ->
   header_of F = (length (nodup Z.eq_dec (map Z.abs (concat (clauses F)))), length (clauses F)) /\
   (forall v, In v (map Z.abs (concat (clauses F))) <-> 1 <= v <= Z.of_nat (num_variables F)) /\
   (n < num_variables F)%nat.
@@ -46,44 +61,73 @@ Print Assumptions C19_header.
 (* (a)+(b) as one statement, FULL: restricting the truth table of the CNF over its declared
    variables to the first n positions gives exactly the model list of the d-DNNF, each model
    exactly once. *)
-Theorem C19_projection : forall C n F, WF C n -> all_reachable C = true -> (2 <= n)%nat ->
-  to_cnf C n = Ok F ->
+Theorem C19_projection : forall C n F, C <> [] -> idx_ok C = true -> complete C n = true ->
+  all_reachable C = true -> (2 <= n)%nat -> to_cnf C n = Ok F ->
   Permutation (map (firstn n) (cnf_models F)) (Models C n).
 Proof. exact tseitin_projection. Qed.
 Print Assumptions C19_projection.
 
-(* equi-countability, FULL: the CNF has exactly root_count models over its declared variables. *)
+(* equi-countability with the truth table, FULL: the CNF has exactly as many models over its
+   declared variables as the circuit has over 1..n. *)
+Theorem C19_equicount_models : forall C n F, C <> [] -> idx_ok C = true -> complete C n = true ->
+  all_reachable C = true -> (2 <= n)%nat -> to_cnf C n = Ok F ->
+  Z.of_nat (length (cnf_models F)) = MC C n.
+Proof. exact tseitin_equicount_models. Qed.
+Print Assumptions C19_equicount_models.
+
+(* equi-countability with the model count ddnnife reports, FULL: the CNF has exactly root_count
+   models over its declared variables (WF: the circuit is a d-DNNF, so root_count = MC). *)
 Theorem C19_equicount : forall C n F, WF C n -> all_reachable C = true -> (2 <= n)%nat ->
   to_cnf C n = Ok F ->
   Z.of_nat (length (cnf_models F)) = root_count C.
 Proof. exact tseitin_equicount. Qed.
 Print Assumptions C19_equicount.
 
-Theorem C19_ok_excludes_true_false : forall C n F, to_cnf C n = Ok F -> no_true_false C = true.
-Proof. exact ok_no_true_false. Qed.
+(* ---- the code before the repair F20 (to_cnf_v0): witnesses of the findings K5 and K10 ---- *)
+
+(* the old code returned a CNF only for vectors without true / false nodes ... *)
+Theorem C19_ok_excludes_true_false : forall C n F, to_cnf_v0 C n = Ok F -> no_true_false C = true.
+Proof. exact v0_ok_no_true_false. Qed.
 Print Assumptions C19_ok_excludes_true_false.
 
-(* REFUTED (known finding K5): a well-formed loaded circuit with a true node (c2d `A 0`) makes
-   Cnf::from panic, so "the CNF produced from a loaded model" does not exist for it. *)
+(* ... and where it did, the repaired code returns the same CNF (the repair changes no answer) *)
+Theorem C19_repair_conservative : forall C n F, to_cnf_v0 C n = Ok F -> to_cnf C n = Ok F.
+Proof. exact v0_ok_same. Qed.
+Print Assumptions C19_repair_conservative.
+
+(* REFUTED for the old code (finding K5, repaired by F20): a well-formed loaded circuit with a
+   true node (c2d `A 0`) made Cnf::from panic (unreachable!), so "the CNF produced from a loaded
+   model" did not exist for it. *)
 Theorem C19_refuted_true_node :
-  exists C n, WF C n /\ all_reachable C = true /\ (2 <= n)%nat /\ to_cnf C n = Panic PanicTrue.
-Proof. exact refuted_true_node. Qed.
+  exists C n, WF C n /\ all_reachable C = true /\ (2 <= n)%nat /\ to_cnf_v0 C n = Panic PanicTrue.
+Proof. exact v0_refuted_true_node. Qed.
 Print Assumptions C19_refuted_true_node.
 
-(* REFUTED (finding K10): the d4 loader can leave an or node without children (all its children
-   were false); Cnf::from panics on it ("Attempt to transform empty operation."). *)
+(* REFUTED for the old code (finding K10, repaired by F20): the d4 loader can leave an or node
+   without children (all its children were false); Cnf::from panicked on it ("Attempt to
+   transform empty operation."). *)
 Theorem C19_refuted_empty_operation :
   exists C n, WF C n /\ all_reachable C = true /\ no_true_false C = true /\ (2 <= n)%nat /\
-              to_cnf C n = Panic PanicEmptyOp.
-Proof. exact refuted_empty_operation. Qed.
+              to_cnf_v0 C n = Panic PanicEmptyOp.
+Proof. exact v0_refuted_empty_operation. Qed.
 Print Assumptions C19_refuted_empty_operation.
 
-(* the hypothesis all_reachable cannot be dropped *)
+(* ---- the remaining hypotheses cannot be dropped ---- *)
+
+(* all_reachable *)
 Theorem C19_reachability_needed :
   exists C n F b, WF C n /\ (2 <= n)%nat /\ to_cnf C n = Ok F /\
                   cnf_sat b F = true /\ eval_root b C = false.
 Proof. exact reachability_needed. Qed.
 Print Assumptions C19_reachability_needed.
+
+(* 2 <= n: a model that is a single literal allocates no variable; Cnf::from then returns the
+   empty CNF `p cnf 0 0`, whose only model (over no variable) says nothing about feature 1 *)
+Theorem C19_two_features_needed :
+  exists C F, WF C 1 /\ all_reachable C = true /\ to_cnf C 1 = Ok F /\
+              Models C 1 = [[1]] /\ map (firstn 1) (cnf_models F) = [[]] /\ header_of F = (0%nat, 0%nat).
+Proof. exact two_features_needed. Qed.
+Print Assumptions C19_two_features_needed.
 
 (* ---------- non-vacuity ---------- *)
 
@@ -129,6 +173,120 @@ Example ex_cache_hit_hyps :
     Ok (mkCnf 6 [[-3; 1; -1]; [3; -1]; [3; 1]; [4; -3; -2]; [-4; 3]; [-4; 2];
                  [5; -3; 2]; [-5; 3]; [-5; -2]; [-6; 4; 5]; [6; -4]; [6; -5]; [6]]) /\
   root_count ex_cache_hit = 4.
+Proof.
+  split; [apply check_wf_sound; vm_compute; reflexivity|].
+  repeat split; vm_compute; reflexivity.
+Qed.
+
+(* ---------- non-vacuity with constants (the input classes of K5 / K10) ---------- *)
+
+(* a TRUE node under an and: what ddnnife loads from the c2d file `nnf 4 3 2 / A 0 / L 1 / L 2 /
+   A 3 0 1 2`; the true node is the empty conjunction with variable 3 and the unit clause (3) *)
+Definition ex_true_under_and : circuit := [TrueN; Lit 1; Lit 2; And [2; 1; 0]%nat].
+Example ex_true_under_and_hyps :
+  WF ex_true_under_and 2 /\ all_reachable ex_true_under_and = true /\
+  to_cnf ex_true_under_and 2 = Ok (mkCnf 4 [[3]; [4; -2; -1; -3]; [-4; 2]; [-4; 1]; [-4; 3]; [4]]) /\
+  cnf_models (mkCnf 4 [[3]; [4; -2; -1; -3]; [-4; 2]; [-4; 1]; [-4; 3]; [4]]) = [[1; 2; 3; 4]] /\
+  root_count ex_true_under_and = 1 /\ to_cnf_v0 ex_true_under_and 2 = Panic PanicTrue.
+Proof.
+  split; [apply check_wf_sound; vm_compute; reflexivity|].
+  repeat split; vm_compute; reflexivity.
+Qed.
+
+(* a FALSE node under an or (next to a true node: an or node is smooth only if its children
+   mention the same features, here none), the or under the root and:
+   c2d `nnf 6 5 2 / O 0 0 / A 0 / O 0 2 0 1 / L 1 / L -2 / A 3 2 3 4`;
+   false = empty disjunction, variable 3, unit clause (-3); true = variable 4, unit clause (4) *)
+Definition ex_false_under_or : circuit :=
+  [FalseN; TrueN; Or [1; 0]%nat; Lit 1; Lit (-2); And [4; 3; 2]%nat].
+Example ex_false_under_or_hyps :
+  WF ex_false_under_or 2 /\ all_reachable ex_false_under_or = true /\
+  to_cnf ex_false_under_or 2 =
+    Ok (mkCnf 6 [[-3]; [4]; [-5; 4; 3]; [5; -4]; [5; -3]; [6; 2; -1; -5]; [-6; -2]; [-6; 1]; [-6; 5]; [6]]) /\
+  cnf_models (mkCnf 6 [[-3]; [4]; [-5; 4; 3]; [5; -4]; [5; -3]; [6; 2; -1; -5]; [-6; -2]; [-6; 1]; [-6; 5]; [6]])
+  = [[1; -2; -3; 4; 5; 6]] /\
+  root_count ex_false_under_or = 1 /\ to_cnf_v0 ex_false_under_or 2 = Panic PanicFalse.
+Proof.
+  split; [apply check_wf_sound; vm_compute; reflexivity|].
+  repeat split; vm_compute; reflexivity.
+Qed.
+
+(* a false node under an and (a dead branch; the file of finding K7):
+   c2d `nnf 7 7 2 / L 1 / O 0 0 / L 2 / A 3 0 1 2 / L -1 / A 2 4 2 / O 1 2 3 5` *)
+Definition ex_false_under_and : circuit :=
+  [Lit 1; FalseN; Lit 2; And [2; 1; 0]%nat; Lit (-1); And [2; 4]%nat; Or [5; 3]%nat].
+Example ex_false_under_and_hyps :
+  WF ex_false_under_and 2 /\ all_reachable ex_false_under_and = true /\
+  to_cnf ex_false_under_and 2 =
+    Ok (mkCnf 6 [[-3]; [4; -2; -3; -1]; [-4; 2]; [-4; 3]; [-4; 1]; [5; -2; 1]; [-5; 2]; [-5; -1];
+                 [-6; 5; 4]; [6; -5]; [6; -4]; [6]]) /\
+  root_count ex_false_under_and = 1 /\ to_cnf_v0 ex_false_under_and 2 = Panic PanicFalse.
+Proof.
+  split; [apply check_wf_sound; vm_compute; reflexivity|].
+  repeat split; vm_compute; reflexivity.
+Qed.
+
+(* a CHILDLESS AND: what ddnnife loads from the d4 text
+     o 1 0 / a 2 0 / t 3 0 / 1 2 1 0 / 1 3 -1 2 0 / 2 3 0 / 2 3 0       (2 features)
+   (the and node 2 has only `t` children, the loader drops them); variable 4, unit clause (4) *)
+Definition ex_childless_and : circuit :=
+  [Lit (-1); Lit 2; And [1; 0]%nat; Lit 1; And []; And [4; 3]%nat; Lit (-2); Or [6; 1]%nat;
+   And [7; 5]%nat; Or [8; 2]%nat].
+Example ex_childless_and_hyps :
+  WF ex_childless_and 2 /\ all_reachable ex_childless_and = true /\ no_true_false ex_childless_and = true /\
+  to_cnf ex_childless_and 2 =
+    Ok (mkCnf 8 [[3; -2; 1]; [-3; 2]; [-3; -1]; [4]; [5; -4; -1]; [-5; 4]; [-5; 1]; [-6; -2; 2]; [6; 2]; [6; -2];
+                 [7; -6; -5]; [-7; 6]; [-7; 5]; [-8; 7; 3]; [8; -7]; [8; -3]; [8]]) /\
+  length (cnf_models (mkCnf 8 [[3; -2; 1]; [-3; 2]; [-3; -1]; [4]; [5; -4; -1]; [-5; 4]; [-5; 1]; [-6; -2; 2]; [6; 2]; [6; -2];
+                 [7; -6; -5]; [-7; 6]; [-7; 5]; [-8; 7; 3]; [8; -7]; [8; -3]; [8]])) = 3%nat /\
+  root_count ex_childless_and = 3 /\ to_cnf_v0 ex_childless_and 2 = Panic PanicEmptyOp.
+Proof.
+  split; [apply check_wf_sound; vm_compute; reflexivity|].
+  repeat split; vm_compute; reflexivity.
+Qed.
+
+(* a CHILDLESS OR (a dead or node): what ddnnife loads from the d4 text
+     o 1 0 / o 2 0 / f 3 0 / t 4 0 / 1 2 1 0 / 1 4 -1 2 0 / 2 3 2 0     (2 features)
+   (the or node 2 lost its only, false, child); variable 4, unit clause (-4) *)
+Definition ex_childless_or : circuit :=
+  [Lit (-1); Lit 2; And [1; 0]%nat; Lit 1; Or []; And [4; 3]%nat; Lit (-2); Or [6; 1]%nat;
+   And [7; 5]%nat; Or [8; 2]%nat].
+Example ex_childless_or_hyps :
+  WF ex_childless_or 2 /\ all_reachable ex_childless_or = true /\ no_true_false ex_childless_or = true /\
+  to_cnf ex_childless_or 2 =
+    Ok (mkCnf 8 [[3; -2; 1]; [-3; 2]; [-3; -1]; [-4]; [5; -4; -1]; [-5; 4]; [-5; 1]; [-6; -2; 2]; [6; 2]; [6; -2];
+                 [7; -6; -5]; [-7; 6]; [-7; 5]; [-8; 7; 3]; [8; -7]; [8; -3]; [8]]) /\
+  cnf_models (mkCnf 8 [[3; -2; 1]; [-3; 2]; [-3; -1]; [-4]; [5; -4; -1]; [-5; 4]; [-5; 1]; [-6; -2; 2]; [6; 2]; [6; -2];
+                 [7; -6; -5]; [-7; 6]; [-7; 5]; [-8; 7; 3]; [8; -7]; [8; -3]; [8]])
+  = [[-1; 2; 3; -4; -5; 6; -7; 8]] /\
+  root_count ex_childless_or = 1 /\ to_cnf_v0 ex_childless_or 2 = Panic PanicEmptyOp.
+Proof.
+  split; [apply check_wf_sound; vm_compute; reflexivity|].
+  repeat split; vm_compute; reflexivity.
+Qed.
+
+(* two true nodes under different parents share ONE variable (the operation cache maps the empty
+   conjunction to variable 4), and a true node below a single-child and hands its variable up:
+   c2d `nnf 11 10 3 / A 0 / L 1 / L 2 / A 3 0 1 2 / A 0 / L -1 / L -2 / A 3 4 5 6 / O 1 2 3 7 / L 3 / A 2 8 9` *)
+Definition ex_two_true_nodes : circuit :=
+  [TrueN; Lit 1; Lit 2; And [2; 1; 0]%nat; TrueN; Lit (-1); Lit (-2); And [6; 5; 4]%nat; Or [7; 3]%nat;
+   Lit 3; And [9; 8]%nat].
+Example ex_two_true_nodes_hyps :
+  WF ex_two_true_nodes 3 /\ all_reachable ex_two_true_nodes = true /\
+  to_cnf ex_two_true_nodes 3 =
+    Ok (mkCnf 8 [[4]; [5; -2; -1; -4]; [-5; 2]; [-5; 1]; [-5; 4]; [6; 2; 1; -4]; [-6; -2]; [-6; -1]; [-6; 4];
+                 [-7; 6; 5]; [7; -6]; [7; -5]; [8; -3; -7]; [-8; 3]; [-8; 7]; [8]]) /\
+  root_count ex_two_true_nodes = 2.
+Proof.
+  split; [apply check_wf_sound; vm_compute; reflexivity|].
+  repeat split; vm_compute; reflexivity.
+Qed.
+
+Definition ex_true_single_child : circuit := [TrueN; And [0]%nat; Lit 1; Lit 2; And [3; 2; 1]%nat].
+Example ex_true_single_child_hyps :
+  WF ex_true_single_child 2 /\ all_reachable ex_true_single_child = true /\
+  to_cnf ex_true_single_child 2 = Ok (mkCnf 4 [[3]; [4; -2; -1; -3]; [-4; 2]; [-4; 1]; [-4; 3]; [4]]) /\
+  root_count ex_true_single_child = 1.
 Proof.
   split; [apply check_wf_sound; vm_compute; reflexivity|].
   repeat split; vm_compute; reflexivity.
